@@ -82,6 +82,9 @@ def run(R, tier):
     # ---- R04.9 whole messages: the element sequence of complete well-formed messages (sa/rules/msgtable.py) ------------------
     from . import msgtable as MT
     MT.check_tokens(R, "R04.9", tier, 500)
+    # ---- R04.10 single-point corruptions, end to end: whichever layer notices (lexer, dispatcher, Parameters), the message fails
+    # with a command error even when the handler takes its parameters as optional
+    MT.check(R, "R04.10", "corrupt", tier, "single-point corruptions of well-formed messages (dangling / doubled / leading `,`, missing separator, misplaced `:`, over-long mnemonic or suffix, unterminated string, truncated block, non-ASCII byte) run through Node::run with handlers that take every parameter as optional: each fails with a command error reported once", 90)
 
     # ---- R04.1 length limits / R04.2 a datum is followed by a separator: named rows of the element tables -----------------
     # (Earlier versions inspected the readers' counters and their final skip_ws_to_separator call; that demanded one
